@@ -22,7 +22,7 @@ Pure text-level extraction with a small Rust tokenizer (no rustc). What is extra
                                                                                             -> missingInit
   * `InterruptDescriptorTable::new()`: per field `Entry::missing()` or `[Entry::missing(); N]`  -> newInit
   * `condition_slice_bounds`: the six bound arms (what is added to an included / excluded bound, the constant of
-    an unbounded one) and the threshold of the `if lower_idx < N { panic!(..) }` guard;
+    an unbounded one) and the threshold of the `if lower_idx < N { panic!(..) }` guard (`<= N` is read as `< N+1`);
     `slice` / `slice_mut`: `&[mut] self.NAME[(lower_idx - A)..(upper_idx - B)]`                 -> slice*, ...
 
 Anything that is not in one of these forms raises `IdtExtractError("<file>:<line>: ...")` -- run.py reports that as
@@ -840,13 +840,14 @@ def parse_slices(p, impl_range):
     # the guard: `if lower_idx < N { panic!(..) }`
     g = None
     for i in p.find_all_seq(["if"], fo, fc):
-        if p.t[i + 1].kind == "id" and p.is_(i + 2, "<") and p.t[i + 3].kind == "num" and p.is_(i + 4, "{"):
+        if p.t[i + 1].kind == "id" and (p.is_(i + 2, "<") or p.is_(i + 2, "<=")) and p.t[i + 3].kind == "num" \
+                and p.is_(i + 4, "{"):
             c = p.close(i + 4)
             if p.find_seq(["panic", "!"], i + 4, c) < 0:
                 p.err(i, "condition_slice_bounds: guard does not panic")
             if g is not None:
                 p.err(i, "condition_slice_bounds: more than one guard")
-            g = (p.t[i + 1].text, num_value(p.t[i + 3].text))
+            g = (p.t[i + 1].text, num_value(p.t[i + 3].text) + (1 if p.is_(i + 2, "<=") else 0))
     if g is None:
         p.err(fo, "condition_slice_bounds: no `if <lower> < N { panic!(..) }` guard found")
     # which of the returned pair is guarded: the tail expression `(lower_idx, upper_idx)`
